@@ -27,6 +27,7 @@ def run(prog, run):
     r2(prog, run)
     r3(prog, run)
     r4(prog, run)
+    r5(prog, run)
 
 
 # ------------------------------------------------------------------------------------------- R1
@@ -537,3 +538,36 @@ def r4(prog, run):
                           cfgx.describe_path(f, bad[0]))
         else:
             run.ok(rid2, f.loc(), '%s: pending entry completed or handed on along every path' % f.display()[-70:])
+
+
+def r5(prog, run):
+    rid = run.rule('C07.R5', 'a request is registered in the table before it is handed to the socket (a synchronous send failure must find the entry to complete); the '
+                             '"stream was resumed" flag that keeps outstanding requests alive is reset for every new stream', floor=2)
+    IQM_ = 'QXmpp::Private::OutgoingIqManager'
+    cands = [f for f in prog.fns_named(IQM_ + '::sendIq') if len(f.params) == 3]
+    if not cands:
+        raise AnalysisBroken('C07.R5: OutgoingIqManager::sendIq(packet, id, to) not found')
+    f = cands[0]
+    starts = [i for i, n in f.calls(IQM_ + '::start')]
+    sends = [i for i, n in f.calls() if f.cname(n).endswith('StreamAckManager::send')]
+    if not sends:
+        raise AnalysisBroken('C07.R5: the send call was not found in OutgoingIqManager::sendIq')
+    run.instance(rid)
+    if starts and all(any(f.node_dominates(st, sd) for st in starts) for sd in sends):
+        run.ok(rid, f.loc(starts[0]), 'start(id, to) dominates the send')
+    else:
+        run.violation(rid, 'OutgoingIqManager::sendIq#send-before-register', f.loc(sends[0]),
+                      'the request is sent before it is registered: when the send fails at once, finish(id, error) finds no entry and the task registered afterwards never completes')
+    # the flag consulted by onSessionOpened
+    from . import C10
+    sub = type(run)(run.prop, run.tier, run.seed)
+    fns, byid = C10._scope(prog)
+    C10.r1(prog, sub, fns, byid)
+    run.instance(rid)
+    hits = [v for v in sub.violations if 'm_streamResumed' in v['key']]
+    if hits:
+        run.violation(rid, 'C2sStreamManager::m_streamResumed#stale', hits[0]['site'],
+                      'the "stream resumed" flag survives into the next stream: a new session that could not be resumed is reported as resumed and the outstanding '
+                      'requests of the lost session are neither cancelled nor answerable (%s)' % hits[0]['what'][:120])
+    else:
+        run.ok(rid, 'src/client/QXmppOutgoingClient.cpp', 'm_streamResumed is reset for every new stream (C10.R1)')
